@@ -1,4 +1,5 @@
 import StorageModel.C03.LayeredReject
+import StorageModel.C03.ChainInv
 /-
   C03 — Unique and set indexes mirror entity state; uniqueness is enforced.
 
@@ -220,6 +221,202 @@ example : (run exSch2 [[.create .parent [97] exA [], .create .parent [98] ⟨[12
 example : idxPath exSch exSch.name.sym = [[112], [113], [114], StorageModel.C03.bIndexes, StorageModel.C03.bThings, [110]] := by decide
 
 end StorageModel.Properties.C03
+
+/-! ## Store chains of any depth (root → child → grandchild → …; StorageModel/C03/C03.Chain.lean)
+
+  Every level declares a unique and a set index of its own; create / full update / patch through level k
+  run the capture-old / apply-new protocol at levels 0, 1, …, k exactly as `IndexingContext` recurses
+  through its `Parent` contexts; a delete visits the constraints of levels 0 and 1 only (the root fans
+  out to the stores registered with it).  All theorems: every depth, every level j, every history. -/
+namespace StorageModel.Properties.C03
+open StorageModel StorageModel.C03.Chain
+open StorageModel.C03 (Map Id Err Res UI SI NEK)
+
+/-- every level of the freshly initialised chain, whatever its depth -/
+theorem chain_inv_init (depth : Nat) : C03.Chain.Inv (C03.Chain.State.empty depth) := C03.Chain.inv_empty depth
+
+/-- one operation (own transaction) through any level keeps level j's invariant, provided it is `Safe`
+    for level j: updates and patches always are; a create is when the immediate parent level holds
+    the id (then every level below is captured) or level j does not hold the id yet; a delete is for
+    j < 2, and for deeper levels when they do not hold the id -/
+theorem chain_inv_step {s : C03.Chain.State} {j : Nat} (op : C03.Chain.Op) (hs : Safe s j op) (h : LInvAt s j) :
+    LInvAt (C03.Chain.step s op).1 j :=
+  inv_txStep_at [op] ⟨hs, by cases C03.Chain.stepRaw s op <;> trivial⟩ h
+
+theorem chain_inv_tx {s : C03.Chain.State} {j : Nat} (ops : List C03.Chain.Op) (hs : SafeOps j s ops) (h : LInvAt s j) :
+    LInvAt (C03.Chain.txStep s ops).1 j := inv_txStep_at ops hs h
+
+/-- **all chain depths, all finite histories**: level j's invariant after any history whose operations
+    are safe for level j -/
+theorem chain_inv_reachable (depth : Nat) (txs : List (List C03.Chain.Op)) (j : Nat)
+    (hs : SafeTxs j (C03.Chain.State.empty depth) txs) : LInvAt (C03.Chain.run depth txs) j :=
+  inv_fold_at txs _ hs (C03.Chain.inv_empty depth j)
+
+/-- the delete clause for the levels the code cleans: EVERY delete keeps the root's and the child
+    level's invariant (both passes of the root's constraints included) -/
+theorem chain_delete_cleans_root_and_child {s : C03.Chain.State} {j : Nat} (id : Id) (hj : j < 2) (h : LInvAt s j) :
+    LInvAt (C03.Chain.step s (.delete id)).1 j := chain_inv_step _ (Or.inl hj) h
+
+/-- the full delete clause (every level) is what the property asks; it does NOT hold (witness below) -/
+def chain_delete_fullStatement : Prop :=
+  ∀ (s : C03.Chain.State) (j : Nat) (id : Id), LInvAt s j → LInvAt (C03.Chain.step s (.delete id)).1 j
+
+/-- proved part: the levels the code visits, and every level that does not hold the id -/
+theorem chain_delete_partial {s : C03.Chain.State} {j : Nat} (id : Id) (hj : j < 2 ∨ Absent s j id) (h : LInvAt s j) :
+    LInvAt (C03.Chain.step s (.delete id)).1 j := chain_inv_step _ hj h
+
+/-- the property's wording at level j of a reachable state -/
+theorem chain_unique_index_exact (depth : Nat) (txs : List (List C03.Chain.Op)) (j : Nat)
+    (hs : SafeTxs j (C03.Chain.State.empty depth) txs) (L : Level) (hL : (C03.Chain.run depth txs).levels[j]? = some L)
+    (v : Bytes) (id : Id) : L.uniq.lookup v = some id ↔ (v ≠ [] ∧ ∃ r, L.data.lookup id = some r ∧ r.u = v) :=
+  (chain_inv_reachable depth txs j hs L hL).uniq v id
+
+theorem chain_set_index_exact (depth : Nat) (txs : List (List C03.Chain.Op)) (j : Nat)
+    (hs : SafeTxs j (C03.Chain.State.empty depth) txs) (L : Level) (hL : (C03.Chain.run depth txs).levels[j]? = some L)
+    (v : Bytes) (id : Id) : id ∈ (L.set.lookup v).getD [] ↔ ∃ r, L.data.lookup id = some r ∧ v ∈ r.s :=
+  (chain_inv_reachable depth txs j hs L hL).set v id
+
+theorem chain_no_empty_keys (depth : Nat) (txs : List (List C03.Chain.Op)) (j : Nat)
+    (hs : SafeTxs j (C03.Chain.State.empty depth) txs) (L : Level) (hL : (C03.Chain.run depth txs).levels[j]? = some L)
+    (v : Bytes) (ids : List Id) (h : L.set.lookup v = some ids) : ids ≠ [] :=
+  (chain_inv_reachable depth txs j hs L hL).noEmptyKeys v ids h
+
+/-- a create through level `recs.length - 1` whose first fault in level order is a unique value of
+    level j (any level of the chain — the ROOT's included, offered through the deepest store) held by
+    another entity -/
+structure CreateDupAt (s : C03.Chain.State) (id : Id) (recs : List Rec) (j : Nat) : Prop where
+  idNonBlank : id ≠ []
+  fits : ¬ (recs = [] ∨ s.levels.length < recs.length)
+  fresh : levelHas s.levels (recs.length - 1) id = false
+  safe : Safe s j (.create id recs)
+  lowerOk : ∀ k, k < j → ∀ L r, s.levels[k]? = some L → recs[k]? = some r →
+    ∃ L', createLevel (capOf s recs.length id) id k L r = .ok L'
+  held : ∃ L r other r', s.levels[j]? = some L ∧ recs[j]? = some r ∧ r.u ≠ [] ∧ other ≠ id ∧
+    L.data.lookup other = some r' ∧ r'.u = r.u
+
+/-- … fails with the duplicate error and changes nothing -/
+theorem chain_dup_rejected {s : C03.Chain.State} {id : Id} {recs : List Rec} {j : Nat} (hi : LInvAt s j)
+    (hw : CreateDupAt s id recs j) : C03.Chain.step s (.create id recs) = (s, .err .dup) := by
+  obtain ⟨L, r, other, r', hL, hr, hne, hoid, hlo, hu⟩ := hw.held
+  have hput : createLevel (capOf s recs.length id) id (0 + j) L r = .error .dup := by
+    unfold createLevel
+    refine put_dup (hi L hL) ?_ hne hlo hoid hu
+    rcases hw.safe with hcap | habs
+    · simp [hcap]
+    · simp [habs L hL]
+  have hm := mapPrefix_error j s.levels recs 0 (by simpa using hw.lowerOk) L r hL hr hput
+  have : C03.Chain.create s id recs = .error .dup := by
+    unfold C03.Chain.create
+    simp only [hw.idNonBlank, if_false, hw.fits, hw.fresh, Bool.false_eq_true]
+    simp only [capOf] at hm
+    simp [hm]
+  simp [C03.Chain.step, C03.Chain.txStep, C03.Chain.applyOps, C03.Chain.stepRaw, this]
+
+/-- the same with an empty value for level j's (non-nullable) unique index -/
+structure CreateEmptyAt (s : C03.Chain.State) (id : Id) (recs : List Rec) (j : Nat) : Prop where
+  idNonBlank : id ≠ []
+  fits : ¬ (recs = [] ∨ s.levels.length < recs.length)
+  fresh : levelHas s.levels (recs.length - 1) id = false
+  safe : Safe s j (.create id recs)
+  lowerOk : ∀ k, k < j → ∀ L r, s.levels[k]? = some L → recs[k]? = some r →
+    ∃ L', createLevel (capOf s recs.length id) id k L r = .ok L'
+  empty : ∃ L r, s.levels[j]? = some L ∧ recs[j]? = some r ∧ r.u = []
+
+theorem chain_empty_rejected {s : C03.Chain.State} {id : Id} {recs : List Rec} {j : Nat} (hi : LInvAt s j)
+    (hw : CreateEmptyAt s id recs j) : C03.Chain.step s (.create id recs) = (s, .err .nullNotAllowed) := by
+  obtain ⟨L, r, hL, hr, he⟩ := hw.empty
+  have hput : createLevel (capOf s recs.length id) id (0 + j) L r = .error .nullNotAllowed := by
+    unfold createLevel
+    refine put_empty (hi L hL) ?_ (by simp) he
+    rcases hw.safe with hcap | habs
+    · simp [hcap]
+    · simp [habs L hL]
+  have hm := mapPrefix_error j s.levels recs 0 (by simpa using hw.lowerOk) L r hL hr hput
+  have : C03.Chain.create s id recs = .error .nullNotAllowed := by
+    unfold C03.Chain.create
+    simp only [hw.idNonBlank, if_false, hw.fits, hw.fresh, Bool.false_eq_true]
+    simp only [capOf] at hm
+    simp [hm]
+  simp [C03.Chain.step, C03.Chain.txStep, C03.Chain.applyOps, C03.Chain.stepRaw, this]
+
+/-- an update / patch ending at level `recs.length - 1` (after the hand-over to the deepest store
+    holding the id) whose first fault in level order is level j's new unique value held by another entity -/
+structure UpdateDupAt (s : C03.Chain.State) (id : Id) (recs : List Rec) (chk : Option (List Sel)) (j : Nat) : Prop where
+  idNonBlank : id ≠ []
+  fits : ¬ (recs = [] ∨ s.levels.length < recs.length)
+  found : levelHas s.levels (recs.length - 1) id = true
+  lowerOk : ∀ k, k < j → ∀ L r, s.levels[k]? = some L → recs[k]? = some r → ∃ L', updateLevel chk id k L r = .ok L'
+  held : ∃ L r o other r', s.levels[j]? = some L ∧ recs[j]? = some r ∧ L.data.lookup id = some o ∧
+    (persist o r (selAt chk j)).u ≠ [] ∧ other ≠ id ∧ L.data.lookup other = some r' ∧ r'.u = (persist o r (selAt chk j)).u
+
+theorem chain_update_dup_rejected {s : C03.Chain.State} {id : Id} {recs : List Rec} {chk : Option (List Sel)} {j : Nat}
+    (hi : LInvAt s j) (hw : UpdateDupAt s id recs chk j) : C03.Chain.updateAt s id recs chk = .error .dup := by
+  obtain ⟨L, r, o, other, r', hL, hr, ho, hne, hoid, hlo, hu⟩ := hw.held
+  have hput : updateLevel chk id (0 + j) L r = .error .dup := by
+    unfold updateLevel
+    simp only [ho, Nat.zero_add]
+    exact put_dup (hi L hL) ho.symm hne hlo hoid hu
+  have hm := mapPrefix_error j s.levels recs 0 (by simpa using hw.lowerOk) L r hL hr hput
+  unfold C03.Chain.updateAt
+  simp only [hw.idNonBlank, if_false, hw.fits, hw.found, Bool.not_true, Bool.false_eq_true]
+  simp [hm]
+
+/-- a transaction that ends in an error leaves the chain unchanged (modelled rollback) -/
+theorem chain_error_changes_nothing (s : C03.Chain.State) (ops : List C03.Chain.Op) (h : (C03.Chain.txStep s ops).2 ≠ .ok) :
+    (C03.Chain.txStep s ops).1 = s := by
+  unfold C03.Chain.txStep at h ⊢
+  split
+  · next h' => simp [h'] at h
+  · rfl
+
+/-! non-vacuity on a three-level chain: a (through the grandchild store), b (root only) -/
+def cA : List Rec := [⟨[120], [[114]]⟩, ⟨[121], [[115]]⟩, ⟨[122], [[116]]⟩]
+def cState : C03.Chain.State := C03.Chain.run 3 [[.create [97] cA], [.create [98] [⟨[119], [[114]]⟩]]]
+
+example : (cState.levels.map (·.uniq)) = [[([119], [98]), ([120], [97])], [([121], [97])], [([122], [97])]] := by decide
+/-- a duplicate of the ROOT's unique value offered through the grandchild store is refused, nothing changes -/
+example : C03.Chain.step cState (.create [99] [⟨[120], []⟩, ⟨[112], []⟩, ⟨[113], []⟩]) = (cState, .err .dup) := by decide
+example : CreateDupAt cState [99] [⟨[120], []⟩, ⟨[112], []⟩, ⟨[113], []⟩] 0 :=
+  ⟨by decide, by decide, by decide, Or.inr (by
+    intro L hL
+    have h0 : (cState.levels[0]?).map (fun L => L.data.lookup [99]) = some none := by decide
+    rw [hL] at h0; simpa using h0), fun k hk => by omega,
+   ⟨_, ⟨[120], []⟩, [97], ⟨[120], [[114]]⟩, rfl, rfl, by decide, by decide, by decide, rfl⟩⟩
+/-- a duplicate of the GRANDCHILD level's value (root and child values fine) -/
+example : C03.Chain.step cState (.create [99] [⟨[112], []⟩, ⟨[113], []⟩, ⟨[122], []⟩]) = (cState, .err .dup) := by decide
+/-- an empty value for the child level's unique index, through the grandchild store -/
+example : C03.Chain.step cState (.create [99] [⟨[112], []⟩, ⟨[], []⟩, ⟨[113], []⟩]) = (cState, .err .nullNotAllowed) := by decide
+/-- a patch through the ROOT store of an entity held down to the grandchild level: handed over twice, all
+    three levels re-indexed -/
+example : ((C03.Chain.step cState (.update [97] [⟨[110], [[114]]⟩] none)).1.levels.map (·.uniq)) =
+    [[([110], [97]), ([119], [98])], [([121], [97])], [([122], [97])]] := by decide
+/-- grandchild create over root + child data: every level below is captured, entries replaced -/
+example : ((C03.Chain.run 3 [[.create [97] [⟨[120], []⟩, ⟨[121], []⟩]], [.create [97] [⟨[110], []⟩, ⟨[111], []⟩, ⟨[112], []⟩]]]).levels.map (·.uniq)) =
+    [[([110], [97])], [([111], [97])], [([112], [97])]] := by decide
+/-- `SafeTxs` is satisfiable: a create through the grandchild store on the empty chain, any level -/
+example (j : Nat) : SafeTxs j (C03.Chain.State.empty 3) [[.create [97] cA]] := by
+  refine ⟨⟨Or.inr ?_, by split <;> trivial⟩, trivial⟩
+  intro L hL
+  have : L ∈ List.replicate 3 Level.empty := List.mem_of_getElem? hL
+  rw [List.eq_of_mem_replicate this]; rfl
+
+/-- **witness (the code as it is)**: a committed delete leaves the grandchild level's index entries of the
+    deleted entity behind — `chain_delete_fullStatement` is false -/
+theorem deep_delete_leaves_entries :
+    let s := C03.Chain.run 3 [[.create [97] cA], [.delete [97]]]
+    s.levels.map (·.data) = [[], [], []] ∧ s.levels.map (·.uniq) = [[], [], [([122], [97])]] ∧
+    s.levels.map (·.set) = [[], [], [([116], [[97]])]] := by decide
+
+/-- **witness**: a create through the grandchild store over an entity the root holds and the child does
+    not captures nothing (only the immediate parent is asked): the root's old entry stays -/
+theorem uncovered_create_breaks_root :
+    ((C03.Chain.run 3 [[.create [97] [⟨[120], []⟩]], [.create [97] [⟨[110], []⟩, ⟨[111], []⟩, ⟨[112], []⟩]]]).levels.map (·.uniq)) =
+    [[([110], [97]), ([120], [97])], [([111], [97])], [([112], [97])]] := by decide
+
+end StorageModel.Properties.C03
+
+#print axioms StorageModel.Properties.C03.chain_inv_reachable
+#print axioms StorageModel.Properties.C03.chain_dup_rejected
 
 #print axioms StorageModel.Properties.C03.inv_reachable
 #print axioms StorageModel.Properties.C03.step_refines_spec
